@@ -612,8 +612,14 @@ def c16k(ctx):
     im = ctx.fn('mapproxy/layer.py:CacheMapLayer._image')
     g = im.cfg
     loads = g.find(lambda x: is_call(x, 'self.tile_manager.load_tile_coords'))
-    over = g.guard_edges(lambda at: at.op == '<' and 'max_tile_limit' in at.text, False)
-    ok = bool(loads) and bool(over) and all(n not in g.reachable(d) for s_, d in over for n, x in loads)
+    # the edge on which the number of tiles is compared with the limit and found too large (`n >= limit` is the atom `n < limit`
+    # taken as false, `n > limit` the atom `limit < n` taken as true): the load is not reachable from it
+    lim = lambda at: at.op == '<' and 'max_tile_limit' in at.text      # noqa: E731
+    ok = False
+    for pol in (False, True):
+        over = g.guard_edges(lim, pol)
+        if over and loads and all(n not in g.reachable(d) for s_, d in over for n, x in loads):
+            ok = True
     ctx.check(ok, 'CacheMapLayer._image:limit-before-tiles', 'the tiles are not loaded for a request over self.max_tile_limit', im)
 
 
